@@ -3,6 +3,7 @@ import ComposeVerif.Model.Template
 import ComposeVerif.Spec.Template
 import ComposeVerif.Model.TemplateOpts
 import ComposeVerif.Model.TemplateSites
+import ComposeVerif.Model.TemplateDocs
 import ComposeVerif.Model.TemplateParse
 /-! line-protocol ops for C07: `subst` -/
 open Lean
@@ -149,6 +150,18 @@ def rawLinesOfJson (a : Array Json) : Option (List (Str × List Seg)) :=
     | some t => some ((getStr l "k").toList, t)
     | none => none
 
+/-- the documents a site of `c07AfterSites` (harness/p/c07/c07_sites.go) walks, in order: `layers` = env files of the
+    entries enclosing the value, `other` = env file of the include entry applied before the value's document -/
+def docsOfSite (site : String) (layers : List Sites.GoMap) (other : Sites.GoMap) (s : Str) : Option (List Docs.Doc) :=
+  let l0 := layers.headD []
+  match site with
+  | "after-include-override" | "after-include-dotenv-override" | "after-include-multidoc" =>
+    some [.incl other [], .value s]
+  | "after-include-extends" => some [.incl other [], .ext [.value s]]
+  | "after-include-sibling" => some [.incl other [], .incl [] [.value s]]
+  | "after-include-nested-files" | "after-include-nested-multidoc" => some [.incl l0 [.incl other [], .value s]]
+  | _ => none
+
 /-- `env`: the project environment; `layers`: the env files of the enclosing include entries, outermost first.
     Answers with the grammar's verdict in the environment the *glue model* builds (`includeChain` + `lookupEnv`)
     and with the model of the code at that site (`siteSubst`). -/
@@ -203,10 +216,68 @@ def substSite : Handler := fun args =>
           ("lines", Json.arr (lines.map fun l => str (renderL l.2)).toArray)]
       | none =>
       let env := Sites.lookupEnv (Sites.includeChain envMap layers)
+      let other : Sites.GoMap := match args.getObjVal? "other" with
+        | .ok j => pairsOfJson j
+        | _ => []
+      match docsOfSite (getStr args "after") layers other (renderL t) with
+      | some docs =>
+        -- sites after-include-*: the model of the code is the stateful walk over the documents (heap of option cells);
+        -- the grammar is evaluated in the enclosing layers only
+        let model := match (Docs.loadValues envMap docs).getLast? with
+          | some o => o
+          | none => .panic .fuel
+        Json.mkObj [("wf", Json.bool (WF t)), ("wf_ml", Json.bool (WFml t)), ("rendered", str (renderL t)),
+          ("eval", outJson (evalOut env t)), ("model", outJson model), ("docs", Json.num docs.length)]
+      | none =>
       Json.mkObj [("wf", Json.bool (WF t)), ("wf_ml", Json.bool (WFml t)), ("rendered", str (renderL t)),
         ("eval", outJson (evalOut env t)), ("model", outJson (Sites.siteSubst envMap layers (renderL t)))]
     | none => Json.mkObj [("bad", "ast")]
   | _ => Json.mkObj [("bad", "ast")]
 
-def handlers2 : List (String × Handler) := [("substSpec", substSpec), ("substOpts", substOpts), ("substSite", substSite), ("substStr", substStr)]
+/-! ### `substDocs`: a random tree of documents (mirrors `harness/p/c07/c07_docs.go`) -/
+
+/-- `{"v":true}` a value, `{"incl":[[k,v]…],"docs":[…]}` an include entry, `{"ext":true}` a service that extends a base
+    file holding the value -/
+instance : Inhabited Docs.Doc := ⟨.value []⟩
+
+partial def docOfJson (s : Str) (j : Json) : Docs.Doc :=
+  match j.getObjVal? "docs" with
+  | .ok (.arr ds) => .incl (pairsOfJson (getObj j "incl")) (ds.toList.map (docOfJson s))
+  | _ =>
+    match j.getObjVal? "ext" with
+    | .ok (.bool true) => .ext [.value s]
+    | _ => .value s
+
+mutual
+/-- the grammar's reading of the same tree: the meaning of the AST in the environment of the enclosing entries -/
+def evalDoc (env : Sites.GoMap) (t : List Seg) : Docs.Doc → List Out
+  | .value _ => [evalOut (Sites.lookupEnv env) t]
+  | .incl f ds => evalDocs (Sites.includeEnv env f) t ds
+  | .ext ds => evalDocs env t ds
+def evalDocs (env : Sites.GoMap) (t : List Seg) : List Docs.Doc → List Out
+  | [] => []
+  | d :: ds => evalDoc env t d ++ evalDocs env t ds
+end
+
+def substDocs : Handler := fun args =>
+  let envMap : Sites.GoMap := (getStrMap args "env").map fun (k, v) => (k.toList, v.toList)
+  let ast : Option (List Json) := match args.getObjVal? "ast" with
+    | .ok (.arr a) => some a.toList
+    | .ok .null => some []
+    | _ => none
+  let tree : List Json := match args.getObjVal? "tree" with
+    | .ok (.arr a) => a.toList
+    | _ => []
+  match ast with
+  | some a =>
+    match a.mapM segOfJson with
+    | some t =>
+      let docs := tree.map (docOfJson (renderL t))
+      Json.mkObj [("wf", Json.bool (WF t)), ("wf_ml", Json.bool (WFml t)), ("rendered", str (renderL t)),
+        ("model", Json.arr ((Docs.loadValues envMap docs).map outJson).toArray),
+        ("eval", Json.arr ((evalDocs envMap t docs).map outJson).toArray)]
+    | none => Json.mkObj [("bad", "ast")]
+  | _ => Json.mkObj [("bad", "ast")]
+
+def handlers2 : List (String × Handler) := [("substSpec", substSpec), ("substOpts", substOpts), ("substSite", substSite), ("substStr", substStr), ("substDocs", substDocs)]
 end CV.Ops.C07
